@@ -161,6 +161,14 @@ pub struct Trace {
 #[derive(Clone, Debug)]
 pub struct RunOpts {
     pub start_cursor: u64,
+    /// signal channel of instance channel 0 (mono twins of an n-channel instance)
+    pub sig_ch0: usize,
+    /// round the input samples to f32 first (f64 twin of an f32 instance)
+    pub round_f32: bool,
+    /// issue setters through the object-safe VecResampler wrapper
+    pub vec_setters: bool,
+    /// position mode: a reset also rewinds the signal to n = 0 (so the restart has a kink, not a step)
+    pub rewind_on_reset: bool,
     pub keep_output: bool,
     /// cap on total output frames kept (safety)
     pub max_frames: u64,
@@ -168,7 +176,7 @@ pub struct RunOpts {
 
 impl Default for RunOpts {
     fn default() -> Self {
-        RunOpts { start_cursor: 0, keep_output: true, max_frames: 40_000_000 }
+        RunOpts { start_cursor: 0, sig_ch0: 0, round_f32: false, vec_setters: false, rewind_on_reset: false, keep_output: true, max_frames: 40_000_000 }
     }
 }
 
@@ -220,6 +228,7 @@ pub fn ctl_value(cfg: &Config, v: &CtlVal, relative_api: bool) -> f64 {
         CtlVal::Neg(x) => -(x.abs()) * if relative_api { 1.0 } else { orig },
         CtlVal::Subnormal => 5e-324 * 1000.0,
         CtlVal::Huge => 1e300,
+        CtlVal::Bits(b) => f64::from_bits(*b),
         CtlVal::Outside(f) => {
             if *f >= 1.0 {
                 hi * (1.0 + 1e-9) * f
@@ -309,7 +318,11 @@ impl<T: Flt> Runner<T> {
             buf.reserve(need + slack);
             for k in 0..need {
                 if k < valid {
-                    buf.push(T::from64(self.signal.at(c, cur + k as u64)));
+                    let mut x = self.signal.at(c + self.opts.sig_ch0, cur + k as u64);
+                    if self.opts.round_f32 {
+                        x = x as f32 as f64;
+                    }
+                    buf.push(T::from64(x));
                 } else {
                     buf.push(T::zero());
                 }
@@ -336,6 +349,10 @@ impl<T: Flt> Runner<T> {
         let (pre, gev) = self.getters();
         if gev > 0 {
             self.viol("C09", "getter-heap", idx, format!("{} heap events inside the getters", gev));
+        }
+        let vg = self.inst.v_getters();
+        if vg != [pre.in_max, pre.in_next, pre.out_max, pre.out_next, pre.delay, pre.channels] {
+            self.viol("C16", "vec-getters-differ", idx, format!("VecResampler getters {:?} vs Resampler getters {:?}", vg, pre));
         }
         if pre.in_next > pre.in_max {
             self.viol("C04", "in_next<=in_max", idx, format!("input_frames_next {} > input_frames_max {}", pre.in_next, pre.in_max));
@@ -388,7 +405,16 @@ impl<T: Flt> Runner<T> {
                     rec.ctl_bits = v.to_bits();
                     let rel_api = *relative_api;
                     let ramp = *ramp;
-                    let r = self.ctl_call(|i| if rel_api { i.set_ratio_rel(v, ramp) } else { i.set_ratio(v, ramp) }, &mut rec);
+                    let vs = self.opts.vec_setters;
+                    let r = self.ctl_call(
+                        |i| match (rel_api, vs) {
+                            (true, false) => i.set_ratio_rel(v, ramp),
+                            (false, false) => i.set_ratio(v, ramp),
+                            (true, true) => i.v_set_ratio_rel(v, ramp),
+                            (false, true) => i.v_set_ratio(v, ramp),
+                        },
+                        &mut rec,
+                    );
                     match r {
                         StepRes::CtlOk => {
                             self.trace.ratio_changed = true;
@@ -421,6 +447,9 @@ impl<T: Flt> Runner<T> {
                     Ok(()) => {
                         rec.res = StepRes::Reset;
                         self.cur_rel = 1.0;
+                        if self.opts.rewind_on_reset {
+                            self.trace.cursor = 0;
+                        }
                     }
                     Err(_) => {
                         rec.res = StepRes::Panic(LAST_PANIC.with(|p| p.borrow().clone()));
@@ -613,10 +642,7 @@ impl<T: Flt> Runner<T> {
                             self.viol("C16", "wrapper-masked-nonempty", idx, format!("masked channel {} returned {} frames", c, ch.len()));
                         }
                     }
-                    if n_out == usize::MAX {
-                        // all channels masked: no way to observe the count through the wrapper
-                        n_out = 0;
-                    }
+                    // all channels masked: no way to observe the count through the wrapper (n_out stays usize::MAX = unknown)
                     outbuf = w;
                     for c in 0..outbuf.len().min(self.cfg.channels) {
                         if self.cfg.active(c) {
@@ -648,6 +674,10 @@ impl<T: Flt> Runner<T> {
                         self.viol("C04", "consumed!=in_next", idx, format!("call reports {} frames consumed, input_frames_next was {}", n_in, need));
                     }
                 }
+                let unknown_out = n_out == usize::MAX;
+                if unknown_out {
+                    n_out = 0;
+                }
                 if n_out > pre.out_next {
                     self.viol("C04", "n_out<=out_next", idx, format!("{} frames produced, output_frames_next was {}", n_out, pre.out_next));
                 }
@@ -657,8 +687,7 @@ impl<T: Flt> Runner<T> {
                 if self.cfg.kind == Kind::FftIn && n_out != pre.out_next && !(path.is_wrapper() && self.all_masked()) {
                     self.viol("C04", "sync-exact", idx, format!("{} frames produced, output_frames_next was {} on a synchronous type", n_out, pre.out_next));
                 }
-                fnv(&mut h, n_in as u64);
-                fnv(&mut h, n_out as u64);
+                // (counts are compared through StepRes; the digest covers the sample bits only)
                 // record output
                 let keep = self.opts.keep_output && self.trace.total_out + (n_out as u64) <= self.opts.max_frames;
                 let mut nonfinite: Option<(usize, usize, f64)> = None;
@@ -684,7 +713,7 @@ impl<T: Flt> Runner<T> {
                     }
                 }
                 rec.digest = h;
-                rec.res = StepRes::Proc { n_in, n_out };
+                rec.res = StepRes::Proc { n_in, n_out: if unknown_out { usize::MAX } else { n_out } };
                 self.trace.total_in += nvalid as u64;
                 self.trace.consumed += n_in as u64;
                 self.trace.total_out += n_out as u64;
@@ -708,6 +737,7 @@ impl<T: Flt> Runner<T> {
         let mut inbuf = std::mem::take(&mut self.inbuf);
         let mut outbuf = std::mem::take(&mut self.outbuf);
         let active: Vec<usize> = (0..ch).filter(|c| self.cfg.active(*c)).collect();
+        let mut applicable = true;
         let resize = |n: usize, delta: i8, zero: bool| -> usize {
             if zero {
                 0
@@ -731,19 +761,60 @@ impl<T: Flt> Runner<T> {
                 mask = Some(m);
             }
             BadCall::InShort { ch: c, missing } => {
-                if !active.is_empty() && need > 0 {
+                if !active.is_empty() && need > 0 && !path.is_partial() {
                     let c = active[*c as usize % active.len()];
                     let miss = (*missing as usize).clamp(1, need);
                     inbuf[c].truncate(need - miss);
+                    rec.ctl_chunk = c;
+                    rec.ctl_bits = (need - miss) as u64;
+                } else {
+                    applicable = false;
                 }
             }
             BadCall::OutShort { ch: c, missing } => {
-                if !active.is_empty() && pre.out_next > 0 {
+                if !active.is_empty() && pre.out_next > 0 && !path.is_wrapper() {
                     let c = active[*c as usize % active.len()];
                     let miss = (*missing as usize).clamp(1, pre.out_next);
                     outbuf[c].truncate(pre.out_next - miss);
+                    rec.ctl_chunk = c;
+                    rec.ctl_bits = (pre.out_next - miss) as u64;
+                } else {
+                    applicable = false;
                 }
             }
+        }
+        if let BadCall::OutChannels { .. } = call {
+            if path.is_wrapper() {
+                applicable = false;
+            }
+        }
+        if let BadCall::InChannels { .. } = call {
+            rec.ctl_bits = inbuf.len() as u64;
+            if inbuf.len() == ch {
+                applicable = false;
+            }
+        }
+        if let BadCall::OutChannels { .. } = call {
+            rec.ctl_bits = outbuf.len() as u64;
+            if outbuf.len() == ch {
+                applicable = false;
+            }
+        }
+        if let BadCall::MaskLen { .. } = call {
+            rec.ctl_bits = mask.as_ref().map(|m| m.len()).unwrap_or(ch) as u64;
+            if rec.ctl_bits as usize == ch {
+                applicable = false;
+            }
+        }
+        if !applicable {
+            inbuf.truncate(ch);
+            inbuf.resize(ch, Vec::new());
+            outbuf.truncate(ch);
+            outbuf.resize(ch, Vec::new());
+            self.inbuf = inbuf;
+            self.outbuf = outbuf;
+            rec.res = StepRes::Skipped;
+            return;
         }
         let maskref = mask.as_deref();
         let inst = &mut *self.inst;
